@@ -11,7 +11,7 @@ MANIFEST = dict(
         "thread counts and interleavings: statically disjoint writes imply that every complete schedule yields the "
         "single-threaded result and that no thread can observe another (drf_schedule_independent, drf_threads_isolated); "
         "iteration-level disjointness implies this for every assignment of iterations to threads (split_drf); partial results "
-        "merged under one lock are order independent for commutative-associative merges (critical_reduction_order_independent); "
+        "merged under one lock are order independent for commutative-associative merges (critical_reduction_order_independent), and at machine level a program whose ordinary accesses are race free and whose critical sections apply pairwise commuting updates to lock-protected locations ends, after every complete schedule, in the single-threaded result (crit_schedule_independent, crit_two_schedules_agree); "
         "the thread-range arithmetic of ErrorFunction/NegativeLogLikelihood, regenerated from the C++ on every run, tiles the "
         "batches (tile_Site*, ranges_cover_exactly_once). Every SHARK_PARALLEL_FOR region of the library is inventoried on every "
         "run and its text hash compared with the reviewed access summary that maps it to one of these theorems; any new or "
